@@ -1166,6 +1166,32 @@ func runC05(c *Ctx) {
 	if f := c.fn("netutil", "indexFirstV4Label"); f != nil {
 		okB := len(core.CallsTo(f, "strings.LastIndexByte")) == 1 && len(core.CallsTo(f, core.ModPath+"/netutil.isIPv4Label")) == 1
 		c.check(okB, "C05.label-aligned", f, "IPv4 labels are delimited by LastIndexByte('.') and validated by isIPv4Label", nil, "whole labels only")
+		// E1: every text handed to isIPv4Label starts at the beginning of the
+		// name or right after a '.' — a candidate that starts inside a longer
+		// label ("host123" read as "123") is not a label of the name
+		lincon.Reset()
+		a := lincon.New(c.P.SSA, core.InModule)
+		a.IndexByteFacts = true
+		a.Hook = func(h *lincon.Handle) {
+			call, ok := h.Instr.(*ssa.Call)
+			if !ok || call.Parent() != f || call.Call.StaticCallee() == nil || call.Call.StaticCallee().Name() != "isIPv4Label" || len(call.Call.Args) != 1 {
+				return
+			}
+			_, off, _, okV := h.SliceView(call.Call.Args[0])
+			_, off0, _, ok0 := h.SliceView(f.Params[0])
+			good := false
+			if okV && ok0 {
+				rel := off.Sub(off0)
+				if h.ProvesEQ(rel) {
+					good = true
+				} else if b, okB := h.ByteAt(f.Params[0], rel.AddK(-1)); okB && b == '.' {
+					good = true
+				}
+			}
+			h.Assert("label-aligned", "the candidate octet label starts the name or follows a '.'", good)
+		}
+		a.Entry(f, nil)
+		recordObligations(c, a, "C05", func(o *lincon.Oblig) bool { return o.Kind == "assert:label-aligned" })
 	}
 
 	// ---- octet width ----
